@@ -51,28 +51,64 @@ def digest(g):
     return a + "/" + b, n, triples
 
 
-def main():
-    seed, nlang, unrelated_first = int(sys.argv[1]), int(sys.argv[2]), sys.argv[3] == "1"
+def make_plan(seed, nlang):
+    """the inputs, generated ONCE (in one interpreter) and handed to every worker: generation is by trial against the implementation, and a
+    trial's verdict can depend on the iteration order of constraint sets (known finding D21, helped along by the state failed trials leave on
+    shared input expressions) - workers that generated their own inputs could drift apart and compare different things (thorough seed 109)"""
     rng = random.Random(seed)
-    from rdflib import BNode
-    from transforge.graph import TransformationGraph
-    from transforge import expr as E
-    out = []
+    plan = []
     for li in range(nlang):
         spec = G.gen_lang(rng, max_base=5, max_ops=2, max_arity=2)
         ops = spec.build()
         opdecls = X.gen_operators(rng, spec)
         top, bottom = rng.random() < 0.3, rng.random() < 0.3
         listed = G.gen_canon(rng, spec, max_items=3, depth=2) + [(b, ()) for b in spec.bases()]
+        item = {"spec": spec.to_json(), "opdecls": [[n, s_] for n, s_ in opdecls], "top": top, "bottom": bottom, "listed": listed}
+        plan.append(item)
         try:
             lang, operators = X.build_typed_language(spec, ops, opdecls, canon=listed, include_top=top, include_bottom=bottom)
         except Exception as ex:  # noqa
-            out.append({"what": f"lang{li}", "digest": "rejected:" + type(ex).__name__}); continue
+            item["rejected"] = type(ex).__name__
+            continue
         ninputs = rng.randint(0, 2)
         trees = X.gen_typed_trees(rng, lang, spec, opdecls, ninputs, rounds=3, per_round=6)
         texts = [X.tree_text(t) for t in trees]
         wfs = [w for w in (W.gen_workflow(rng, lang, spec, opdecls) for _ in range(4)) if w]
         bits = [GG.gen_bits(rng) for _ in range(len(texts) + len(wfs) + 1)]
+        item.update(ninputs=ninputs, texts=texts, wfs=wfs, bits=bits)
+    return plan
+
+
+def tt(x):
+    return (x[0], tuple(tt(a) for a in x[1]))
+
+
+def main():
+    if sys.argv[1] == "plan":
+        print(json.dumps(make_plan(int(sys.argv[2]), int(sys.argv[3]))))
+        return
+    planfile, unrelated_first, seed = sys.argv[2], sys.argv[3] == "1", int(sys.argv[4])
+    from props.C03 import fix_schema
+    with open(planfile) as f:
+        plan = json.load(f)
+    from rdflib import BNode
+    from transforge.graph import TransformationGraph
+    from transforge import expr as E
+    out = []
+    for li, item in enumerate(plan):
+        spec = G.LangSpec([(n, v, p) for n, v, p in item["spec"]])
+        ops = spec.build()
+        opdecls = [(n, fix_schema(s_)) for n, s_ in item["opdecls"]]
+        top, bottom = item["top"], item["bottom"]
+        listed = [tt(t) for t in item["listed"]]
+        try:
+            lang, operators = X.build_typed_language(spec, ops, opdecls, canon=listed, include_top=top, include_bottom=bottom)
+        except Exception as ex:  # noqa
+            out.append({"what": f"lang{li}", "digest": "rejected:" + type(ex).__name__}); continue
+        if "rejected" in item:
+            out.append({"what": f"lang{li}", "digest": "accepted-but-planned-rejected:" + item["rejected"]}); continue
+        ninputs, texts, bits = item["ninputs"], item["texts"], item["bits"]
+        wfs = [{"sources": w["sources"], "apps": [tuple(a) for a in w["apps"]]} for w in item["wfs"]]
         if unrelated_first:
             # allocation history: unrelated graphs from the same language first
             for t in texts[:3]:
